@@ -70,7 +70,7 @@ func (x *Exec) checkFieldGuards(fr *Frame, st *State, structType types.Type, fie
 // checkAccessContracts emits the obligations of fieldwrite / elemwrite / mapaccess contracts at a
 // store or map access of the function being executed.
 func (x *Exec) checkAccessContracts(fr *Frame, st *State, kind, tk, fname string, bind map[string]specVal) {
-	if len(x.db.FieldWrites) == 0 || x.mode == "lemma" {
+	if len(x.db.FieldWrites) == 0 || x.mode == "lemma" || x.coveredByOwnUnit(fr) {
 		return
 	}
 	for _, fw := range x.db.FieldWrites {
@@ -107,4 +107,15 @@ func (x *Exec) checkAccessContracts(fr *Frame, st *State, kind, tk, fname string
 			x.addObl(st, "callsite", name, goal, x.p.pos(site.Pos()), r.Text)
 		}
 	}
+}
+
+// coveredByOwnUnit: the frame belongs to an inlined function that is verified as a unit of its own
+// for the current property (it carries a function contract of that property): its call-site and
+// access obligations are generated there, with its own hooks, and are not repeated in the caller.
+func (x *Exec) coveredByOwnUnit(fr *Frame) bool {
+	if fr.depth == 0 || fr.fn == nil {
+		return false
+	}
+	fc, ok := x.db.Funcs[fr.fn.String()]
+	return ok && !fc.Extern && x.wantObl(fc.Props)
 }
